@@ -201,6 +201,32 @@ func inAny(fs []func(a string) string, a string) string {
 	return or(cs...)
 }
 
+// validTerm: implicit validity of a parameter: non-nil method receivers, and the package's "valid" predicate for *T.
+func (u *Unit) validTerm(t types.Type, v Val, st *state, isRecv bool) string {
+	pt, ok := t.Underlying().(*types.Pointer)
+	if !ok {
+		return "true"
+	}
+	var cs []string
+	if isRecv {
+		cs = append(cs, not(eq(v.S[0], "0")))
+	}
+	if n, ok := types.Unalias(pt.Elem()).(*types.Named); ok && n.Obj().Pkg() != nil {
+		if vd := u.db.Valid[shortPkg(n.Obj().Pkg().Path())+"."+n.Obj().Name()]; vd != nil {
+			env := &Env{u: u, st: st, old: st, pkg: n.Obj().Pkg(), bound: map[string]Val{vd.Var: v}}
+			func() {
+				defer func() {
+					if r := recover(); r != nil {
+						u.specErrors = append(u.specErrors, fmt.Sprintf("valid %s: %v", vd.Type, r))
+					}
+				}()
+				cs = append(cs, env.evalBool(vd.Expr))
+			}()
+		}
+	}
+	return and(cs...)
+}
+
 // callByContract: check requires, havoc the callee's write set under its frame, assume ensures.
 func (f *Frame) callByContract(st *state, callee *ssa.Function, ct *FuncContract, args []Val, ins ssa.Instruction, resT types.Type) *Val {
 	u := f.u
@@ -215,6 +241,11 @@ func (f *Frame) callByContract(st *state, callee *ssa.Function, ct *FuncContract
 		}
 		o := u.oblige(f, st, "pre", fmt.Sprintf("%s %s.%s", f.ordLabel(ins, "call"), ct.Key, c.Label), ins.Pos(), term)
 		o.Quant = quant
+	}
+	for i, prm := range callee.Params {
+		if t := u.validTerm(prm.Type(), args[i], pre, i == 0 && callee.Signature.Recv() != nil); t != "true" {
+			u.oblige(f, st, "pre", fmt.Sprintf("%s %s.valid:%s", f.ordLabel(ins, "call"), ct.Key, prm.Name()), ins.Pos(), t)
+		}
 	}
 	ranges, err := u.modRanges(ct, envPre)
 	if err != nil {
@@ -238,7 +269,7 @@ func (f *Frame) callByContract(st *state, callee *ssa.Function, ct *FuncContract
 		old := u.arr(st.mem, s, srt)
 		u.sortOfSite(s, srt)
 		h := u.ctx.freshConst(f.prefix+".callM:"+s, SArr(SInt, srt))
-		st.mem.arr[s] = h
+		u.putArr(st.mem, s, h)
 		in := inAny(ranges[s], "a!")
 		u.ctx.assert("call-frame", fmt.Sprintf("(forall ((a! Int)) (! (=> (and (< a! %s) %s) (= (select %s a!) (select %s a!))) :pattern ((select %s a!))))", preAlloc, not(in), h, old, h))
 	}
@@ -314,6 +345,11 @@ func encodeUnit(p *Program, db *ContractDB, root *ssa.Function) (res *UnitResult
 	}
 	ct := db.forFunc(u.rootKey)
 	entry := &state{reach: "true", mem: st.mem.clone()}
+	for i, prm := range root.Params {
+		if t := u.validTerm(prm.Type(), f.params[i], entry, i == 0 && root.Signature.Recv() != nil); t != "true" {
+			u.ctx.assert("valid:"+prm.Name(), t)
+		}
+	}
 	if ct != nil {
 		env := u.funcEnv(root, f.params, nil, entry, entry)
 		for _, c := range ct.Requires {
@@ -392,6 +428,88 @@ func (u *Unit) frameObligations(f *Frame, ct *FuncContract, entry, ret *state) {
 // ---------- solving ----------
 
 func (u *Unit) script(o *Obligation) string { return u.scriptOpt(o, false) }
+
+// scriptSliced keeps only the assumptions that are connected to the goal through non-hub symbols.
+// Dropping assumptions is always sound for a proof attempt (unsat stays unsat).
+func (u *Unit) scriptSliced(o *Obligation) string {
+	items := u.ctx.items[:o.Mark]
+	// symbol frequencies among asserts
+	freq := map[string]int{}
+	for _, it := range items {
+		if it.kind == itAssert {
+			for _, s := range it.syms {
+				if _, ok := u.ctx.names[s]; ok {
+					freq[s]++
+				}
+			}
+		}
+	}
+	isHub := func(s string) bool { return freq[s] > 12 }
+	rel := map[string]bool{}
+	var work []string
+	var push func(syms []string, viaAssert bool)
+	push = func(syms []string, viaAssert bool) {
+		for _, s := range syms {
+			if _, ok := u.ctx.names[s]; !ok || rel[s] {
+				continue
+			}
+			rel[s] = true
+			work = append(work, s)
+		}
+	}
+	closeDefs := func() {
+		for len(work) > 0 {
+			s := work[len(work)-1]
+			work = work[:len(work)-1]
+			idx := u.ctx.names[s]
+			if idx < len(items) && (items[idx].kind == itDefine || items[idx].kind == itRaw) {
+				push(items[idx].syms, false)
+			}
+		}
+	}
+	push(symsOf(o.Guard), false)
+	push(symsOf(o.Cond), false)
+	closeDefs()
+	included := make([]bool, len(items))
+	for changed := true; changed; {
+		changed = false
+		for i, it := range items {
+			if it.kind != itAssert || included[i] {
+				continue
+			}
+			hit := false
+			for _, s := range it.syms {
+				if rel[s] && !isHub(s) {
+					hit = true
+					break
+				}
+			}
+			if hit {
+				included[i] = true
+				changed = true
+				push(it.syms, true)
+				closeDefs()
+			}
+		}
+	}
+	var b strings.Builder
+	for i, it := range items {
+		switch it.kind {
+		case itDecl, itDefine, itRaw:
+			if it.name != "" && !rel[it.name] {
+				continue
+			}
+		case itAssert:
+			if !included[i] {
+				continue
+			}
+		}
+		b.WriteString(it.text)
+		b.WriteByte('\n')
+	}
+	fmt.Fprintf(&b, "(assert (not %s))\n", implies(o.Guard, o.Cond))
+	return b.String()
+}
 
 // scriptQF drops every quantified assumption: a relaxation used only to search for candidate counterexamples,
 // which are then confirmed (or discarded) by replay on the real code.
